@@ -550,7 +550,9 @@ def register_grad_event(self, event: SimpleNamespace) -> Union[int, Tuple[int, L
             any_changed = any_changed or found
 
             # Check whether tt == np.arange(len(event.tt)) * self.grad_raster_time + 0.5
-            tt_regular = (np.floor(event.tt / self.grad_raster_time) == np.arange(len(event.tt))).all()
+            tt_regular = bool(
+                np.all(np.abs(event.tt / self.grad_raster_time - 0.5 - np.arange(len(event.tt))) < 1e-6)
+            )
 
             if not tt_regular:
                 c_time = compress_shape(event.tt / self.grad_raster_time)
